@@ -40,6 +40,9 @@ CLAIMS = {
  'C08': ('model_checking',
    "TLA+ spec KeyLock (abstract lock state: usage octet, S2K kind, password, integrity of blob / S2K-IV / public fields; actions set_password_with_s2k, remove_password, unlock, wire round trip, from_wire with usage 253/254/255/legacy cipher octet, tamper) is model-checked over all histories of 6 (thorough 8) actions for v4 and v6 keys; TLC emits every history of 3 (thorough 4) actions with the predicted verdict and usage octet after each step; each is replayed on real SecretKey and SecretSubkey packets with rotating passwords (ASCII, empty, non-UTF-8, 300 octets), S2K parameters, ciphers and AEAD modes, usage 255 / legacy packets from an independent encoder, comparing verdict, usage octet and unlocked material after every step.",
    'DESIGN.md 5/C08', TECH),
+ 'C05': ('exploration',
+   "TLA+ spec WireGrammar describes RFC 9580 packet bodies as typed token sequences and TLC enumerates ~18 000 cells (every one-octet id of PKESK/SKESK/signature/one-pass/literal/compressed/SEIPD/key/secret-key fields, every subpacket type 0..127 x critical x 1/2/5-octet length form x area, MPI encoding styles, unknown versions, areas up to 100 000 octets, multi-byte text) with predicted body length, canonicity and whether acceptance is demanded (internal consistency checked by TLC); Framing and KeyLock are model-checked for the header thresholds and mutation histories. A table-driven concretiser (no packet knowledge) turns tokens into octets; the harness checks acceptance, parse(serialise(p)) = p, octet-identical re-serialisation of canonical input, and announced = written lengths for packets, certificates (secret/public/armored, 6-9 algorithms), after lock/unlock histories and after unhashed subpacket push/insert/remove with every length class.",
+   'DESIGN.md 5/C05', 'TLA+ token-grammar specification enumerated by TLC; independent spec-derived encoder vs the crate parser/serialiser (spec->impl conformance)'),
 }
 checks = []
 for p in props:
